@@ -1,5 +1,6 @@
 """C03 / C05: base_array element-wise operators, selection, concatenation (include/dsplib/array.h)."""
 from engine.spec import fn, inline_fn
+from engine.specfun import NS as _SF
 
 TU = 'drivers/instantiate.cpp'
 A = 'dsplib::base_array<*>::'
@@ -96,8 +97,11 @@ fn(A + 'operator[]', TU, sig='(const std::vector<bool> &) const', key='base_arra
    throws='idxs.len != this.len',
    ensures=[('bounded', 'And(0 <= result.len, result.len <= this.len)'),
             ('all_selected', 'Implies(forall(lambda k: Implies(And(0 <= k, k < idxs.len), idxs[k])), And(result.len == this.len, forall(lambda k: Implies(And(0 <= k, k < this.len), result[k] == this[k]))))'),
-            ('none_selected', 'Implies(forall(lambda k: Implies(And(0 <= k, k < idxs.len), Not(idxs[k]))), result.len == 0)')],
-   loops={1: {'inv': [('count', 'And(0 <= res.len, res.len <= i)'),
+            ('none_selected', 'Implies(forall(lambda k: Implies(And(0 <= k, k < idxs.len), Not(idxs[k]))), result.len == 0)'),
+            ('as_many_as_selected', 'result.len == COUNT_TRUE(data(idxs), idxs.len)')],
+   extra_env=_SF,
+   loops={1: {'facts': ['CT_BASE(data(idxs))', 'CT_STEP(data(idxs), i)'],
+              'inv': [('count', 'And(0 <= res.len, res.len <= i, res.len == COUNT_TRUE(data(idxs), i))'),
                       ('all', 'Implies(forall(lambda k: Implies(And(0 <= k, k < i), idxs[k])), And(res.len == i, forall(lambda k: Implies(And(0 <= k, k < i), res[k] == _vec[k]))))'),
                       ('none', 'Implies(forall(lambda k: Implies(And(0 <= k, k < i), Not(idxs[k]))), res.len == 0)')]}})
 
